@@ -1148,7 +1148,12 @@ class DcmMetaExtension(Nifti1Extension):
         local_vals, classes = self.get_values_and_class(key)
         other_vals = other._get_changed_class(key, classes, self.slice_dim)
 
-        if classes == ('global', 'const'):
+        #In 5D there is one time sample per volume, so just extending the list
+        #would mix up the time and vector indices. Use the general approach
+        #below instead (the result gets simplified later).
+        time_in_5d = sample_base == 'time' and len(self.shape) == 5
+
+        if classes == ('global', 'const') and not time_in_5d:
             if local_vals != other_vals:
                 self._change_class(key, (sample_base, 'samples'))
                 local_vals = self.get_values(key)
@@ -1157,8 +1162,10 @@ class DcmMetaExtension(Nifti1Extension):
                                                       self.slice_dim
                                                      )
                 local_vals.extend(other_vals)
-        elif classes == (sample_base, 'samples'):
+        elif classes == (sample_base, 'samples') and not time_in_5d:
             local_vals.extend(other_vals)
+        elif classes == ('global', 'const') and local_vals == other_vals:
+            pass
         else:
             if classes != ('global', 'slices'):
                 self._change_class(key, ('global', 'slices'))
